@@ -511,7 +511,11 @@ type NamedMix struct {
 	M  NamedMap   `ion:"m"`
 	P  NamedPtr   `ion:"p"`
 	MM map[NamedKey]NamedMap
+	Y2 [3]NamedU8 `ion:"y2"`
+	Y3 []NamedU8  `ion:"y3"`
 }
+
+type NamedU8 uint8
 
 var staticTypes = []reflect.Type{reflect.TypeOf(NamedMix{}), reflect.TypeOf(NamedMap(nil)), reflect.TypeOf(map[NamedKey][]NamedMix(nil)),
 	reflect.TypeOf(DeepOuter{}), reflect.TypeOf(DeepSame{}), reflect.TypeOf(CaseFields{}), reflect.TypeOf(TagMix{}),
